@@ -23,6 +23,8 @@ type propContract struct {
 	Pkg  string `json:"pkg"`
 	Name string `json:"name"`
 	Role string `json:"role,omitempty"`
+	// clauses of this contract that belong to another property (decided, and reported, there)
+	Skip []string `json:"skip_clauses,omitempty"`
 }
 
 type propConfig struct {
@@ -40,6 +42,7 @@ type ledger struct {
 	Property string            `json:"property"`
 	Proved   map[string]string `json:"proved"` // obligation full name -> solver at baseline time
 	Funcs    []string          `json:"functions"`
+	Slow     []string          `json:"proved_but_slow,omitempty"` // discharged at baseline time, too slow to pin
 }
 
 type finding struct {
@@ -138,6 +141,7 @@ func cmdCheck(args []string) int {
 	// generate
 	var results []*vc.FuncResult
 	var bindErrs []string
+	var skippedClauses []string
 	specByKey := map[string]*vc.FuncSpec{}
 	for _, s := range p.FuncSpecs() {
 		specByKey[s.Pkg+"::"+s.Name] = s
@@ -154,7 +158,25 @@ func cmdCheck(args []string) int {
 			continue
 		}
 		for _, f := range fns {
-			results = append(results, vc.VerifyFunc(p, f, spec, observeFor(spec, vc.ShortName(f))))
+			r := vc.VerifyFunc(p, f, spec, observeFor(spec, vc.ShortName(f)))
+			if len(c.Skip) > 0 {
+				var keep []*vc.Obligation
+				for _, o := range r.Obls {
+					skip := false
+					for _, l := range c.Skip {
+						if strings.HasSuffix(o.Name, ":"+l) {
+							skip = true
+						}
+					}
+					if skip {
+						skippedClauses = append(skippedClauses, r.Func+"#"+o.Name)
+					} else {
+						keep = append(keep, o)
+					}
+				}
+				r.Obls = keep
+			}
+			results = append(results, r)
 		}
 	}
 	genS := time.Since(t0).Seconds() - loadS
@@ -365,7 +387,26 @@ func cmdCheck(args []string) int {
 	}
 
 	if *rebase {
-		nl := ledger{Property: *prop, Proved: proved, Funcs: funcsUnder}
+		// obligations whose slowest path query needed a large share of the quick time limit are proved but
+		// not pinned: a later timeout on them is reported as undecided, not as a violation
+		slow := []string{}
+		for _, or := range ors {
+			if or.Verdict != "proved" {
+				continue
+			}
+			var mx int64
+			for _, a := range or.Answers {
+				if a.Ms > mx {
+					mx = a.Ms
+				}
+			}
+			if mx > 12000 {
+				full := or.Func + "#" + or.Obl.Name
+				delete(proved, full)
+				slow = append(slow, fmt.Sprintf("%s (%d ms)", full, mx))
+			}
+		}
+		nl := ledger{Property: *prop, Proved: proved, Funcs: funcsUnder, Slow: slow}
 		lb, _ := json.MarshalIndent(nl, "", " ")
 		os.MkdirAll(filepath.Join(*verif, "baseline", "ledger"), 0o755)
 		os.WriteFile(filepath.Join(*verif, "baseline", "ledger", *prop+".json"), lb, 0o644)
@@ -409,7 +450,8 @@ func cmdCheck(args []string) int {
 		"solver_stats": solver.Stats, "solver_ms": solver.TotalMs, "load_s": loadS, "generate_s": genS,
 		"vacuity_covers": fmt.Sprintf("%v", covers), "contract_files": p.SpecFilesRead, "warnings": keys(warnings),
 		"undecided_parts_of_property": cfg.Undecided, "bounded_stand_ins": cfg.Bounded,
-		"exhaustive": false, "bind_errors": bindErrs,
+		"exhaustive": false, "bind_errors": bindErrs, "clauses_decided_under_another_property": skippedClauses,
+		"cache_hits": solver.CacheHits,
 	}
 	if level == "other" {
 		cov["explanation"] = explanation
